@@ -54,6 +54,69 @@ CHECKS = {
              'the same plane point within 2^-46 (lemmas R / P of C01). NOT decided by a registered command (undecided after 40 min per harness, tier extended; native oracle only): sph_coo inverts hash_with_dxdy for generic offsets, the '
              'interior-offset round trip, the hash (hash_v2) vs hash_with_dxdy clause and the 1e-13 rad figure.',
     ),
+    'C06': dict(
+        text='Discrete clauses only: a radius >= pi gives exactly the 12 full base cells for every centre (incl. NaN) and every (depth, delta_depth) listed; pack leaves no four full siblings and '
+             'preserves the cell->state map; the recursive descent pushes full / partial / descends exactly according to the per-level thresholds and always produces a well formed sequence, '
+             'whatever the distances are.',
+        design_ref='DESIGN.md section 5 C06',
+        note='NOT decided: that distance <= min means "entirely inside the cone", and the radius + 2*c2v tightness (true haversine distance and c2v envelope). A threshold-logic counter-example has no '
+             'public-API replay and is reported as inconclusive (exit 2).',
+    ),
+    'C07': dict(
+        text='On canonical plain MOCs (all full, packed) of bounded shape, not/and/or/xor equal complement/intersection/union/symmetric difference pointwise for a symbolic probe cell, outputs are well '
+             'formed, and/not outputs are packed, equals implies equal sets, a xor a is empty; or/xor packedness = well-formedness here + the pack lemma (C15 harnesses).',
+        design_ref='DESIGN.md section 5 C07/C08',
+        note='Bounds: depth_max <= 2, operand shapes listed in the evidence. Allocator-growth model and pack cut as stated in the assumptions.',
+    ),
+    'C08': dict(
+        text='Three-valued semantics (absent/partial/full) of not/and/or/xor decided pointwise for a symbolic probe cell on operands with arbitrary flags and depths of bounded shape, '
+             'including a low-resolution partial cell meeting deeper full cells and operands of different depth_max; every output well formed.',
+        design_ref='DESIGN.md section 5 C07/C08',
+        note='Bounds: depth_max <= 2, operand shapes listed in the evidence (quick: and up to (2,2), not (1), or/xor (1,1)). Allocator-growth model and pack cut as stated.',
+    ),
+    'C09': dict(
+        text='For every valid BMOC of bounded shape: into_iter decodes the entries, flat_iter / flat_iter_cell / to_flat_array enumerate exactly the covered deepest-level cells in increasing order with the '
+             'right flags, deep_size is their number, to_ranges is sorted, disjoint, non adjacent and covers the same set; the public builder stores the documented raw layout; operator outputs are well formed.',
+        design_ref='DESIGN.md section 5 C09',
+        note='Bounds in the evidence. Outputs of cone / polygon / ellipse queries are covered only structurally (C06 recursion harness for the cone).',
+    ),
+    'C10': dict(
+        text='Per depth and region: to_ring(from_ring(r)) = r and from_ring(to_ring(h)) = h on the whole range, consecutive RING indices have strictly increasing (-Y, X) centre keys (plane oracle), '
+             'the RING-scheme centre of r equals the NESTED centre of from_ring(r) and the oracle centre; deep polar caps: first/last cells of ring windows.',
+        design_ref='DESIGN.md section 5 C10',
+        note='Polar caps: every index only up to depth 2 (quick) / 8 (thorough); at depths 26 and 29 only the ring ends of windows of 64 rings. Equatorial region: every index at the listed depths.',
+    ),
+    'C11': dict(
+        text='Per nside: every image point hashes to a cell number in range with offsets in [0, 1] whose diamond (centre +- 1/nside) contains the point; the centre of every cell hashes back with offsets (0.5, 0.5); '
+             'sph_coo inverts hash_with_dxdy; consecutive centres are ordered (non-increasing latitude, increasing longitude); out-of-range numbers / latitudes panic.',
+        design_ref='DESIGN.md section 5 C11',
+        note='Plane cut (proj -> arbitrary image point). Quick: every image point at nside 1, 2 (polar base-cell borders included, and separately restricted to them), centres at nside 1, 2, 3, 5, order at nside 1, 2, 3; thorough adds points at nside 3, 5 split by base-cell column and centres / order at more nside values.',
+    ),
+    'C14': dict(
+        text='Per (depth, delta_depth), for every cell: internal_edge is the closed walk S->E->N->W of the border descendants, the sorted variant is the same set increasing, corner/side helpers match; '
+             'the direction tables used to orient the internal side of a neighbour across a base-cell seam are right for every cell and direction (adjacency oracle). '
+             'The assembly of external_edge(_sorted / _struct) from these ingredients against the plane oracle is built (c14_external_*, c14_struct_*) but did not finish within 40 min at 40 GB: tier extended, not claimed.',
+        design_ref='DESIGN.md section 5 C14',
+        note='Bounds: (depth, delta) pairs listed in the evidence, delta <= 2. The external-edge clause of the property is decided only through its ingredients (neighbours by C04, seam direction tables, internal sides); see outside_bounds in the evidence.',
+    ),
+    'C15': dict(
+        text='pack preserves the cell->state map, well-formedness and leaves no four full siblings for every valid sequence of bounded length; to_lower_depth keeps a coarse cell iff something overlapped it and marks '
+             'it full only if covered by a full cell; the fixed-depth builder returns exactly the pushed set with the flag for every push order / duplicates / buffer capacity of bounded size, None iff nothing pushed.',
+        design_ref='DESIGN.md section 5 C15',
+        note='Bounds: <= 4 entries / pushes, depth <= 2, capacities 1..4 (evidence). In fixed-depth-builder harnesses the pack step of or is cut (decided by the pack harnesses); the merge step buff_to_bmoc is also decided alone on every strictly increasing buffer of 4 cells (the state after sort + dedup).',
+    ),
+    'C17': dict(
+        text='For every double position: proj is in [-8,8]x[-2,2] with the sign of lon; in the equatorial region it is inside the HEALPix image and equals the Calabretta-Roukema expressions within 2^-46 from the same libm values (decided compositionally: the real pm1_offset_decompose against its specification, the real proj over any decomposition value allowed by it); in the polar caps range, sign and side of the column centre (the image clause and the value of the Collignon expressions there are NOT decided by a registered tier, see note); '
+             'unproj is in range with the right sign on the whole plane domain; base_cell_from_proj_coo returns a base cell whose closed diamond contains the point for every image point; out-of-range lat / y panic.',
+        design_ref='DESIGN.md section 5 C17',
+        note='The two 1e-14 round trips depend on the accuracy of the actual libm and are evaluated only by the native oracle on replay, not decided by the solver. The polar-cap image clause and Collignon value clauses (float-multiplier monotonicity / equivalence) were undecided after 40 min per harness and live in tier extended; they are stated as assumptions (guarantee I) by the plane-cut checks C03, C11, C19. unproj additionally: longitude in the quarter of the facet column of x, on the same side of its central meridian.',
+    ),
+    'C19': dict(
+        text='Per depth, for every cell and every offset pair on the 1/256 lattice of [0, 1]^2: four weights in [0, 1] summing to 1 within 1e-12, cells = the cell or its neighbours, that cell present, weight 1 on it at its centre, '
+             'zero-weight filler next to a three-cell point, barycentre = the position when the four cells share a base cell.',
+        design_ref='DESIGN.md section 5 C19',
+        note='Cut at hash_with_dxdy (decided in C03): the harness supplies the cell and the offsets. Offsets restricted to multiples of 1/256.',
+    ),
     'C04': dict(
         text='Bounded model checking per depth: for EVERY cell a and EVERY other cell c of the depth (both symbolic) the neighbour map of a is '
              'compared with an integer plane-geometry oracle (vertex coordinates in units of 1/nside, polar-cap seam identifications): each '
